@@ -43,6 +43,13 @@ CHECKS = {
               'both spellings run through the real pipeline on SQLite and must return the same multisets. Toggles are restricted to the '
               'documented contexts (e.g. `=` only as assignment to a variable, no disjunction inside aggregation).'),
         note='trusted: the printer spells the documented forms; admissible differences from the reference evaluator'),
+    'C18': dict(
+        category='exploration', design_ref='DESIGN.md 4/C18',
+        technique='runtime monitor: generated programs with @OrderBy/@Limit (both syntaxes) on the real pipeline + SQLite vs reference (sort, take K); ordered comparison for the final predicate, multiset for its readers',
+        text=('For generated programs one predicate gets order_by over (a permutation of) all its columns and limit K in {0,1,2,n-1,n,n+1,100}; the '
+              'rows it returns are compared in order with the reference, and three consumers (copy, aggregation, negation) must see exactly '
+              'the first K rows. Single-rule targets make the annotation the only thing that prevents inlining.'),
+        note='trusted: SQLite NULL/str ordering; limit without total order judged only when unambiguous'),
     'C14': dict(
         category='exploration', design_ref='DESIGN.md 4/C14',
         technique='runtime trace monitor: start events recorded at the sql_runner boundary checked offline against a trace specification; icontract post-conditions on the scheduler state; stop-signal fault injection',
